@@ -55,6 +55,16 @@ def run(ctx):
         rules.append(ringgen.rule(random.Random(rng.getrandbits(40)), balanced=(i % 4 != 0)))
     rules = list(dict.fromkeys(rules))
     jobs = [{'op': 'run_rule', 'text': t, 'smiles': rng.sample(MOLS, ctx.n(4, 10)), 'timeout': 30} for t in rules]
+    # one rule object run on a molecule where the edit cannot be applied (bond exists / no radical left) and THEN on molecules where it
+    # can: a failed run must leave nothing behind in the rule object
+    SEQ = [('rule rc{ reactant r{ C. labeled a C labeled m single bond to a C. labeled b single bond to m} form bond (a,b) '
+            'decrease number of radical (a) decrease number of radical (b)}', ['[CH]1C[CH]1', '[CH2]C[CH2]', 'C[CH]C[CH]C', '[CH]1C[CH]1', '[CH2]C[CH2]']),
+           ('rule rd{ reactant r{ C labeled a C labeled b single bond to a} increase bond order (a,b) decrease number of radical (a) '
+            'decrease number of radical (b)}', ['CC', '[CH2][CH2]', 'C[CH][CH2]', 'CC', '[CH2][CH2]']),
+           ('rule ro{ reactant r{ O labeled o H labeled h single bond to o} break bond (o,h) increase number of radical (o) '
+            'decrease number of radical (h)}', ['O', 'CO', 'OO'])]
+    jobs += [{'op': 'run_rule', 'text': t, 'smiles': sm, 'timeout': 30} for t, sm in SEQ]
+    rules = rules + [t for t, _ in SEQ]
     res = vlib.run_impl_sharded('ring', jobs, timeout=2400)
     hist = {'rules': len(rules), 'readable': 0, 'rejected': 0, 'product_sets': 0, 'applications': 0}
     rows, crow = [], []
